@@ -17,6 +17,7 @@ TRUSTED = ['rustc MIR construction (nightly)', 'pdb-facts driver', 'rule engine 
 
 
 def run(ctx):
+    shared.session_ended_with_close_before_files_change(ctx, '9s')    # F79
     F = ctx.F
     # ------------------------------------------------ 1. validate before touching
     o = ctx.body('db::DbInner::open')
